@@ -48,9 +48,47 @@ def describe(spec):
     return "%s(%s)" % (spec["fn"], ", ".join(d))
 
 
+def pyf_signatures():
+    """{function: [argument names in C call order]} from the interface file the f2py module is generated from"""
+    import re
+    from .common import REPO
+    txt = open(os.path.join(REPO, "src", "_cImageD11.pyf")).read()
+    txt = re.sub(r"&[ \t]*\n", " ", txt)
+    sigs = {}
+    for m in re.finditer(r"^[ \t]*(?:subroutine|function)[ \t]+(\w+)[ \t]*\(([^)]*)\)", txt, re.M):
+        sigs[m.group(1)] = [a.strip() for a in m.group(2).split(",") if a.strip()]
+    return sigs
+
+
+def wrapper_arguments(mod, sigs, spec):
+    """(wrapper, positional args, keyword args, names of hidden arguments) for one call spec.  The spec lists the
+    arguments in C order, the .pyf block names them in the same order, the wrapper's doc line says which of them are
+    visible (hidden ones - the dimensions - are computed by the wrapper from the .pyf declarations: that computation is
+    what this layer checks)"""
+    import re
+    name = spec["fn"][2:] if spec["fn"].startswith("v_") else spec["fn"]
+    w = getattr(mod, name)
+    names = sigs[name]
+    if len(names) != len(spec["args"]):
+        raise RuntimeError("%s: .pyf lists %d arguments, the call spec %d" % (name, len(names), len(spec["args"])))
+    val = dict(zip(names, spec["args"]))
+    doc = w.__doc__.splitlines()[0]
+    inside = doc[doc.index("(") + 1:doc.rindex(")")]
+    req, opt = (inside.split("[") + [""])[:2]
+    req = [a.strip() for a in req.split(",") if a.strip()]
+    opt = [a.strip() for a in opt.replace("]", "").split(",") if a.strip()]
+    return w, req, opt, val, [n for n in names if n not in req and n not in opt]
+
+
 def main():
     cfg = json.loads(sys.argv[1])
     mode, seed, rounds = cfg["mode"], cfg["seed"], cfg["rounds"]
+    # some kernels print (verbose=1, boundscheck=1 rejections, "Error" lines): C stdio is flushed at exit, i.e. after
+    # our JSON line.  Keep the real stdout for the result and point fd 1 at /dev/null for everything else.
+    sys.stdout.flush()
+    result_fd = os.dup(1)
+    devnull = os.open(os.devnull, os.O_WRONLY)
+    os.dup2(devnull, 1)
     out = dict(counters={}, violations=[], kernels={}, samples=[])
     cnt = out["counters"]
 
@@ -66,10 +104,25 @@ def main():
     elif mode == "vrt":
         v = klib.Vrt()
         lib = v.lib
+    elif mode == "f2py":
+        # the ASan+UBSan build of the real extension module (this process runs under build.child_env("asan"))
+        import ImageD11._cImageD11 as mod
+        ok, where = build.assert_overlay_loaded()
+        if not ok:
+            os.write(result_fd, (json.dumps(dict(error="compiled module not from the overlay: %s" % where)) + "\n").encode())
+            return
+        lib = None
+        sigs = pyf_signatures()
+        libc = C.CDLL(None)
+        libc.malloc.restype = C.c_void_p
+        libc.malloc.argtypes = [C.c_size_t]
+        libc.free.argtypes = [C.c_void_p]
+        logpat = cfg["log_path"] + ".%d" % os.getpid()
     else:
         lib = C.CDLL(build.kernel_lib("plain"))
     t0 = time.time()
     seen_keys = set()
+    secs = out["seconds_by_kernel"] = {}
     for rd in range(rounds):
         for gi, gen in enumerate(kspecs.GENERATORS):
             r = rng(seed, "C20", mode, rd, gi)
@@ -84,20 +137,71 @@ def main():
                 bufs = [a for a in spec["args"] if isinstance(a, kspecs.Buf)]
                 desc = describe(spec)
                 out["kernels"][spec["fn"]] = out["kernels"].get(spec["fn"], 0) + 1
+                if spec.get("cls"):
+                    # input-class counters: the check requires the classes that must have been exercised
+                    count("cls:%s:%s" % (mode, spec["cls"]))
                 if len(out["samples"]) < 8 and spec["fn"] not in [s.split("(")[0] for s in out["samples"]]:
                     out["samples"].append(desc)
-                f = get_fn(lib, spec)
+                f = get_fn(lib, spec) if lib is not None else None
+                tk0 = time.time()
                 replay = dict(mode=mode, round=rd, generator=gen.__name__, call=desc)
-                if mode == "asan":
+                if mode == "f2py":
+                    try:
+                        w, req, opt, val, hidden = wrapper_arguments(mod, sigs, spec)
+                    except Exception as e:
+                        out["violations"].append(dict(key="harness:f2py-signature", what="%s: %s" % (spec["fn"], e), replay=replay))
+                        continue
+                    for nt in cfg["threads"]:
+                        mod.cimaged11_omp_set_num_threads(nt)
+                        blocks, conv = [], {}
+                        for nm, a in val.items():
+                            if isinstance(a, kspecs.Buf):
+                                nb = a.arr.nbytes
+                                if nb:
+                                    # numpy array living in an exactly-sized block of the interposed malloc: red zones
+                                    # start at the first byte the declaration must not reach
+                                    p = libc.malloc(nb)
+                                    C.memmove(p, a.arr.ctypes.data, nb)
+                                    blocks.append(p)
+                                    conv[nm] = np.frombuffer((C.c_ubyte * nb).from_address(p), dtype=a.arr.dtype).reshape(a.arr.shape)
+                                else:
+                                    conv[nm] = np.zeros(a.arr.shape, a.arr.dtype)
+                            elif isinstance(a, tuple):
+                                conv[nm] = float(a[1])
+                            else:
+                                conv[nm] = int(a)
+                        before = os.path.getsize(logpat) if os.path.exists(logpat) else 0
+                        try:
+                            w(*[conv[n] for n in req], **{n: conv[n] for n in opt})
+                            count("f2py_calls")
+                            cnt["f2py_hidden_dimension_arguments"] = cnt.get("f2py_hidden_dimension_arguments", 0) + len(hidden)
+                            out.setdefault("f2py_accepted", {})[spec["fn"]] = out.setdefault("f2py_accepted", {}).get(spec["fn"], 0) + 1
+                        except Exception as e:
+                            # the wrapper refused the call (shape/type test of the interface): no kernel ran, nothing
+                            # for this property to decide; listed so that an interface that refuses everything is seen
+                            count("f2py_wrapper_refusals")
+                            out.setdefault("f2py_refused", {}).setdefault(spec["fn"], "%s: %s" % (desc, str(e)[:200]))
+                        after = os.path.getsize(logpat) if os.path.exists(logpat) else 0
+                        if after > before:
+                            with open(logpat, errors="replace") as fh:
+                                fh.seek(before)
+                                txt = fh.read()
+                            out["violations"].append(dict(key="pending", what="f2py wrapper " + desc, report=txt[:6000],
+                                                          replay=dict(replay, threads=nt)))
+                        conv = None
+                        for p in blocks:
+                            libc.free(p)
+                elif mode == "asan":
                     for nt in cfg["threads"]:
                         lib.cimaged11_omp_set_num_threads(nt)
                         ptrs = []
                         for b in bufs:
                             nb = b.arr.nbytes
-                            p = libc.malloc(nb if nb else 1) if nb else libc.malloc(1)
-                            # a zero-length buffer gets a 1 byte block and the pointer to its END: any access is out of bounds
+                            p = libc.malloc(nb if nb else 16)
+                            # a zero-length buffer gets a 16 byte block and the pointer to its END (aligned for every
+                            # element type, so UBSan alignment checks stay quiet): any access is out of bounds
                             if nb == 0:
-                                ptrs.append(p + 1)
+                                ptrs.append(p + 16)
                             else:
                                 C.memmove(p, b.arr.ctypes.data, nb)
                                 ptrs.append(p)
@@ -220,10 +324,11 @@ def main():
                     if res[0][0] != res[1][0] and not (res[0][0] != res[0][0]):
                         out["violations"].append(dict(key="definedness:%s:return" % spec["fn"],
                                                       what="return value depends on buffer poison in %s" % desc, replay=replay))
+                secs[spec["fn"]] = secs.get(spec["fn"], 0.0) + time.time() - tk0
         if time.time() - t0 > cfg.get("budget_s", 1e9):
             out["stopped_after_rounds"] = rd + 1
             break
-    print(json.dumps(out))
+    os.write(result_fd, (json.dumps(out) + "\n").encode())
 
 
 if __name__ == "__main__":
